@@ -1,14 +1,18 @@
 """C20 — pair, tuple and callable wrappers: case generators and configuration."""
 import itertools
+import os
 
 ID = "C20"
 LEVEL = "proof"
-HARNESSES = [{"name": "main", "src": "harness.cpp", "flags": ["-O1", "-DTETL_ENABLE_CONTRACT_CHECKS=1"]}]
+# harness.cpp is compiled as 6 translation units in parallel (at most 4 at a time) by props/C20/pcxx.py
+_PCXX = os.path.join(os.path.dirname(os.path.abspath(__file__)), "pcxx.py")
+HARNESSES = [{"name": "main", "src": "harness.cpp", "compiler": _PCXX,
+              "flags": ["-O1", "-DTETL_ENABLE_CONTRACT_CHECKS=1", "-DC20_NPARTS=6"]}]
 
 RULE = ("the complete value-category tables (get / pair get / forward / forward_like / invoke on function objects, "
         "member-function and member-data pointers with object, derived, reference_wrapper and pointer receivers / "
         "reference_wrapper / function_ref / inplace_function call / bind_front / not_fn / apply / make_from_tuple / "
-        "tuple_cat element transfer / pair assignment), every pair of pairs and of 2- and 3-tuples over {0,1,2}, all "
+        "tuple_cat element transfer / pair assignment / element transfer of the pair and tuple constructors, make_pair, make_tuple, forward_as_tuple), every pair of pairs and of 2- and 3-tuples over {0,1,2}, all "
         "tuple_cat shapes up to 3 operands of arity <= 3, and inplace_function histories over 2 wrappers x 3 targets x 4 "
         "target palettes: exhaustive to depth 2 over the full operation alphabet (62 operations), to depth 4 over a 16-operation core alphabet and to depth 5 over a 10-operation alphabet with self swap / self assignment, "
         "plus seeded random histories up to depth 14 (thorough: up to 4 wrappers, depths 3 / 5 / 6, more random); every history is "
@@ -183,6 +187,27 @@ def gen_tables(tier, rng):
         for sk in (0, 2):
             for sc in range(3):
                 out.append(f"passign {dk} {sk} {sc}")
+    # element transfer on construction: pair / tuple constructors, make_pair / make_tuple / forward_as_tuple
+    for k in R6:
+        for ac in R4:
+            out.append(f"pctor {k} {ac}")
+            out.append(f"tctor 2 {k} {ac}")
+    for dk in R4:
+        for sk in R6:
+            for sc in R4:
+                out.append(f"pconv {dk} {sk} {sc}")
+    for k1 in (0, 2, 3):
+        for a1 in R4:
+            for k2 in (0, 2, 3):
+                for a2 in R4:
+                    out.append(f"tctor 4 {k1} {a1} {k2} {a2}")
+    for a1 in R4:
+        for a2 in R4:
+            for a3 in R4:
+                out.append(f"tctor 6 0 {a1} 0 {a2} 0 {a3}")
+    for which in range(3):
+        for ac in R4:
+            out.append(f"mk {which} {ac}")
     # construction / assignment matrix over {int, const int, int&, const int&, int&&, move-only, copy-only}
     for e1 in range(7):
         out.append(f"ttraits 1 {e1}")
